@@ -2,7 +2,7 @@
 from vplib import build, simple
 
 PROP = "C09"
-WRAPS = ["random", "srand", "clock_gettime", "clock_getres", "epoll_wait", "usleep"]
+WRAPS = ["random", "srand", "clock_gettime", "clock_getres", "epoll_wait", "usleep", "malloc", "calloc", "realloc"]
 
 
 def loopmodel():
